@@ -137,8 +137,8 @@ def dispatch (op : String) (args : List Str) : String :=
   | "pipeline", [s] => opAccept "cur" s
   | "roundtrip", [s] => opRoundtrip s
   | "chardata", k :: c :: ops => chardata (String.ofList k) c ops
-  | "query", t :: b :: es => opQuery "r" t b es
-  | "qfresh", t :: b :: es => opQuery "r" t b es
+  | "query", t :: b :: es => opQuery "rz" t b es
+  | "qfresh", t :: b :: es => opQuery "rz" t b es
   | "queryq", q :: t :: b :: es => opQuery (String.ofList q) t b es
   | _, _ => "bad-op"
 
